@@ -16,23 +16,27 @@ func Operate[A any, B any, R any](ac <-chan A, bc <-chan B, o func(A, B) R) <-ch
 	oc := make(chan R)
 
 	go func() {
-		defer close(oc)
-
 		for {
 			an, ok := <-ac
 			if !ok {
-				Drain(bc)
 				break
 			}
 
 			bn, ok := <-bc
 			if !ok {
-				Drain(ac)
 				break
 			}
 
 			oc <- o(an, bn)
 		}
+
+		// The result ends with the shorter input. Close it before consuming what is
+		// left of the longer one, and drain the inputs independently of each other,
+		// so that neither the consumer nor the other producer has to wait for it.
+		close(oc)
+
+		go Drain(ac)
+		Drain(bc)
 	}()
 
 	return oc
